@@ -80,6 +80,7 @@ type scenario struct {
 	Partial        []bool   `json:"partial"`
 	DefaultDeliver bool     `json:"default_deliver"`
 	Limits         bool     `json:"limits"`
+	LimitLines     []string `json:"limit_lines,omitempty"` // group L: the directives of the limits block (several limiters per scope)
 	ModRule        string   `json:"mod_rule"` // none plus move fanout
 	MaxReceived    int      `json:"max_received"`
 	MaxHeader      int      `json:"max_header"`
@@ -193,7 +194,13 @@ func (sc *scenario) configText(id string) string {
 	if sc.submission() {
 		b.WriteString("auth &c03auth_" + id + "\n")
 	}
-	if sc.Limits {
+	if len(sc.LimitLines) > 0 {
+		b.WriteString("limits {\n")
+		for _, l := range sc.LimitLines {
+			b.WriteString(" " + l + "\n")
+		}
+		b.WriteString("}\n")
+	} else if sc.Limits {
 		b.WriteString("limits {\n all concurrency 1\n ip concurrency 1\n source concurrency 1\n}\n")
 	}
 	b.WriteString("check {\n c03chk " + id + "\n}\n")
